@@ -2,6 +2,7 @@ package main
 
 import (
 	"fmt"
+	"os"
 	"strings"
 
 	"github.com/shiningrush/fastflow/pkg/entity"
@@ -19,7 +20,15 @@ type gtask struct {
 	deps []int
 }
 
-func tname(i int) string { return fmt.Sprintf("t%d", i) }
+// reservedTask: the task (if any) that carries the id the task tree uses for its virtual root
+var reservedTask = -1
+
+func tname(i int) string {
+	if i == reservedTask {
+		return "_virtual_root"
+	}
+	return fmt.Sprintf("t%d", i)
+}
 
 func classifyBuildErr(err error) int {
 	if err == nil {
@@ -165,10 +174,20 @@ func runDagValid(cfg *runCfg) {
 	w.AddKeeper("w-1")
 	seq := 0
 	nStoredOnReject, nAccepted, nRejected := 0, 0, 0
-	try := func(g []gtask, viaUpdate bool, tag string) {
+	var try func(g []gtask, viaUpdate bool, tag string)
+	try = func(g []gtask, viaUpdate bool, tag string) {
+		// the same task list again with one task named like the tree's virtual root ("_virtual_root"): the model's
+		// verdict does not depend on names, the implementation's must not either
+		if reservedTask < 0 && len(g) > 0 && (len(g) <= 3 || rng.Chance(1, 3)) {
+			reservedTask = g[rng.Intn(len(g))].id
+			try(g, viaUpdate, "reserved-id")
+			reservedTask = -1
+		}
 		seq++
 		id := fmt.Sprintf("dag%d", seq)
 		dag := dagOf(g, id)
+		// the input in hand, for the orchestrator, should the implementation take the process down with it
+		_ = os.WriteFile(cfg.out+".current", []byte(fmt.Sprintf("# CreateDag/UpdateDag (update=%v) of the task list below; task %d is named \"_virtual_root\" (-1: none)\n16 %s\n", viaUpdate, reservedTask, sxString(L(graphSx(g, nil), I(-1))))), 0o644)
 		var err error
 		before := len(w.Srv.Dump("dag"))
 		if viaUpdate {
@@ -310,6 +329,7 @@ func runDagValid(cfg *runCfg) {
 	meta.Extra["accepted"] = nAccepted
 	meta.Extra["rejected"] = nRejected
 	meta.Extra["stored_on_reject"] = nStoredOnReject
+	os.Remove(cfg.out + ".current")
 	meta.Write(cfg.meta)
 }
 
